@@ -30,6 +30,10 @@ func init() {
 			{Name: "break in XFF loop", File: "route/access_rules.go", Old: "\t\t\tif xip == host {\n\t\t\t\tcontinue\n\t\t\t}", New: "\t\t\tif xip == host {\n\t\t\t\tbreak\n\t\t\t}", Expect: "C12.X1"},
 			{Name: "append target despite rule error", File: "route/route.go", Old: "\t\t\tt.denyAll()\n", New: "", Expect: "C12.F2"},
 			{Name: "basic auth answers from a cache of accepted headers", File: "auth/basic.go", Old: "\treturn b.secrets.Match(user, password)", New: "\tif h := request.Header.Get(\"Authorization\"); h != \"\" && h == b.realm {\n\t\treturn true\n\t}\n\treturn b.secrets.Match(user, password)", Expect: "C12.A1"},
+			{Name: "benign: both gates behind one helper", File: "proxy/http_proxy.go", Old: "\tif t.AccessDeniedHTTP(r) {\n\t\thttp.Error(w, \"access denied\", http.StatusForbidden)\n\t\treturn\n\t}\n\n\tif !t.Authorized(r, w, p.AuthSchemes) {\n\t\thttp.Error(w, \"authorization failed\", http.StatusUnauthorized)\n\t\treturn\n\t}\n", New: "\tif !p.admit(w, r, t) {\n\t\treturn\n\t}\n", Expect: "",
+				More: []repl{{"func key(code int) string {", "func (p *HTTPProxy) admit(w http.ResponseWriter, r *http.Request, t *route.Target) bool {\n\tif t.AccessDeniedHTTP(r) {\n\t\thttp.Error(w, \"access denied\", http.StatusForbidden)\n\t\treturn false\n\t}\n\tif !t.Authorized(r, w, p.AuthSchemes) {\n\t\thttp.Error(w, \"authorization failed\", http.StatusUnauthorized)\n\t\treturn false\n\t}\n\treturn true\n}\n\nfunc key(code int) string {"}}},
+			{Name: "helper that admits on the access-denied edge", File: "proxy/http_proxy.go", Old: "\tif t.AccessDeniedHTTP(r) {\n\t\thttp.Error(w, \"access denied\", http.StatusForbidden)\n\t\treturn\n\t}\n\n\tif !t.Authorized(r, w, p.AuthSchemes) {\n\t\thttp.Error(w, \"authorization failed\", http.StatusUnauthorized)\n\t\treturn\n\t}\n", New: "\tif !p.admit(w, r, t) {\n\t\treturn\n\t}\n", Expect: "C12.G1",
+				More: []repl{{"func key(code int) string {", "func (p *HTTPProxy) admit(w http.ResponseWriter, r *http.Request, t *route.Target) bool {\n\tif t.AccessDeniedHTTP(r) {\n\t\tw.Header().Set(\"X-Denied\", \"1\")\n\t}\n\tif !t.Authorized(r, w, p.AuthSchemes) {\n\t\thttp.Error(w, \"authorization failed\", http.StatusUnauthorized)\n\t\treturn false\n\t}\n\treturn true\n}\n\nfunc key(code int) string {"}}},
 			{Name: "benign: gate helper", File: "proxy/http_proxy.go", Old: "\tif t.AccessDeniedHTTP(r) {\n\t\thttp.Error(w, \"access denied\", http.StatusForbidden)\n\t\treturn\n\t}", New: "\tdenied := t.AccessDeniedHTTP(r)\n\tif denied {\n\t\thttp.Error(w, \"access denied\", http.StatusForbidden)\n\t\treturn\n\t}", Expect: ""},
 		},
 	})
@@ -79,13 +83,12 @@ func runGateHTTP(c *Ctx, rule string, withAuth bool) {
 		key := "proxy.(*HTTPProxy).ServeHTTP|" + siteKey(how)
 		b := i.Block()
 		if withAuth {
-			dc := factCallTo(b, denied, false)
-			ac := factCallTo(b, auth, true)
-			ok := dc != nil && ac != nil
+			rd := gateReceiver(b, denied, false, 0)
+			ra := gateReceiver(b, auth, true, 0)
+			ok := rd != nil && ra != nil
 			detail := how + " must be dominated by AccessDeniedHTTP()==false and Authorized()==true"
 			if ok {
 				// both on the looked-up target
-				rd, ra := dc.Call.Args[0], ac.Call.Args[0]
 				if rd != ra || !isLookupFieldCall(rd) {
 					ok = false
 					detail = how + ": the access and auth gates must both be applied to the target returned by p.Lookup"
@@ -116,18 +119,27 @@ func runGateHTTP(c *Ctx, rule string, withAuth bool) {
 		name  string
 	}{{denied, true, 403, "access denied => 403"}, {auth, false, 401, "unauthorized => 401"}} {
 		found := false
-		for _, b := range serve.Blocks {
-			if factCallTo(b, g.fn, g.truth) == nil {
-				continue
+		// the deny edge may live in ServeHTTP or in a helper of package proxy that ServeHTTP calls
+		hosts := []*ssa.Function{serve}
+		for f := range c.reach(serve) {
+			if f != serve && rootPkg(f) == c.spkg("proxy") {
+				hosts = append(hosts, f)
 			}
-			for _, i := range b.Instrs {
-				cc := callCommon(i)
-				if cc != nil && calleeName(cc) == "net/http.Error" && len(cc.Args) == 3 {
-					code, _ := constInt(cc.Args[2])
-					_, isRet := b.Instrs[len(b.Instrs)-1].(*ssa.Return)
-					found = true
-					c.check("C12.S1", "proxy.(*HTTPProxy).ServeHTTP|"+g.name, i.Pos(), code == g.code && isRet,
-						fmt.Sprintf("the deny edge must answer %d and return; got status %d, returns=%v", g.code, code, isRet))
+		}
+		for _, hf := range hosts {
+			for _, b := range hf.Blocks {
+				if factCallTo(b, g.fn, g.truth) == nil {
+					continue
+				}
+				for _, i := range b.Instrs {
+					cc := callCommon(i)
+					if cc != nil && calleeName(cc) == "net/http.Error" && len(cc.Args) == 3 {
+						code, _ := constInt(cc.Args[2])
+						_, isRet := b.Instrs[len(b.Instrs)-1].(*ssa.Return)
+						found = true
+						c.check("C12.S1", "proxy.(*HTTPProxy).ServeHTTP|"+g.name, i.Pos(), code == g.code && isRet,
+							fmt.Sprintf("the deny edge must answer %d and return; got status %d, returns=%v", g.code, code, isRet))
+					}
 				}
 			}
 		}
